@@ -554,7 +554,7 @@ def gen_items(run):
     exe = core.ARTS["san"]["naken_asm"]
     corp = corpus.load()
     tab = cpu_table()
-    per = 3 if quick else 60
+    per = 10 if quick else 60
     items = []
     rng = run.rng
     want = []
